@@ -24,6 +24,8 @@ HTTP-version other than 1.x, truncated / corrupt / garbage-suffixed gzip, close-
 ended by RST, wire body larger than max_body_size although the decoded body fits, header block
 larger than max_header_size.
 
+History dimension: a case is one fetch or 2-3 fetches through ONE client (see M9 below); the oracle is per fetch.
+
 Parts: "grid" = deterministic sweep (every mutation x 6 client/stream configurations; every gzip variant x framing
 x decompress x max_body_size placement x streaming), "main" = Hypothesis exploration.
 
@@ -46,6 +48,13 @@ Sensitivity (quick tier, seed 1, scratch copies of /repo/tornado, one mutant at 
   M4 _GzipMessageDelegate.data_received: decompressed-size check removed           -> caught  C08.body_exceeds_max_body_size
   M5 _read_chunked_body: CRLF after chunk data not checked                         -> caught  C08.reject_returned_response
   M6 _read_body: unequal duplicate Content-Length values accepted                  -> caught  C08.reject_returned_response
+  M9 _create_connection: HTTP1ConnectionParameters built once and cached on the CLIENT although `decompress` is per request
+     -> caught at seeds 1,2,3 (C08.headers / C08.body_mismatch on the later fetch).  Found by independent "state carried over"
+     mutation testing: every case used a fresh client for a single fetch.  REUSE is now a generated dimension: a case may carry a
+     `history` of 1-2 further fetches through the SAME client (about 40 % of sampled cases + deterministic grid rows: every
+     (decompress, streaming, header_callback) x (decompress, ...) pair on gzip and plain bodies, 3-fetch orders, and re-use of the
+     client after a malformed / corrupt / left-open / truncated / reset fetch); per-request options and the scripted stream
+     differ per fetch, client limits are those of the first fetch, each response is judged independently (log records per fetch).
   M8 _read_body: the 204 check lost its `is_chunked or` term (204 + Transfer-Encoding: chunked delivers the chunk data)
      -> caught at seeds 1,2,3  C08.body_delivered_for_bodiless_response.  Found by independent mutation testing: the
      "invalid framing headers on a body-less response" EITHER class only compared the status, and the only 204+TE case sent
@@ -157,6 +166,18 @@ seg_s = st.fixed_dictionaries({
 
 @st.composite
 def case_s(draw):
+    """One fetch, or (about every third case) a history of 2-3 fetches through ONE client: per-request options
+    (decompress_response, streaming/header callbacks, timeouts, method) and the scripted response vary per fetch, the
+    client-level limits are those of the first fetch; every response is judged independently of the others."""
+    case = draw(member_s())
+    n_more = draw(st.sampled_from([0, 0, 0, 0, 1, 1, 2]))
+    if n_more:
+        case["history"] = [draw(member_s()) for _ in range(n_more)]
+    return case
+
+
+@st.composite
+def member_s(draw):
     mut = draw(st.one_of(st.none(), st.none(), st.sampled_from(ALL_MUTS), st.sampled_from(ALL_MUTS)))
     cut = None
     if mut is None and draw(st.integers(0, 3)) == 0:
@@ -594,6 +615,9 @@ def build(case):
     b.max_header_size = None
     if case["mhs"] is not None:
         b.max_header_size = max(20, max(b.blocks) + case["mhs"])
+    if case.get("client_limits") is not None:
+        # later fetch of a history: the limits are the client's, fixed by the first fetch of the case
+        b.max_body_size, b.max_header_size = case["client_limits"]
     if verdict[0] in ("accept", "first_or_error"):
         M = b.max_body_size
         if M is not None and not nobody:
@@ -695,76 +719,79 @@ def segments_for(n, seg, one):
     return out
 
 
-def run_client(case, b, one_segment):
-    chunks = []
-    hlines = []
-    state = {}
+def run_members(members, one_segment):
+    """Run the fetches of one case - one or several, through ONE SimpleAsyncHTTPClient, one after the other, each with its
+    own per-request options and its own scripted connection - and return one state dict per fetch."""
+    states = [{"chunks": [], "hlines": []} for _ in members]
+    b0 = members[0][1]
 
-    async def scenario():
+    async def scenario(logs):
         fake = ch.FakeTCPClient()
         ckw = {}
-        if b.max_body_size is not None:
-            ckw["max_body_size"] = b.max_body_size
-        if b.max_header_size is not None:
-            ckw["max_header_size"] = b.max_header_size
+        if b0.max_body_size is not None:
+            ckw["max_body_size"] = b0.max_body_size
+        if b0.max_header_size is not None:
+            ckw["max_header_size"] = b0.max_header_size
         client = ch.make_client(fake, **ckw)
-        kw = dict(method=b.method, follow_redirects=False, decompress_response=case["decompress"])
-        if b.method == "POST":
-            kw["body"] = b"x=1"
-        if case["streaming"]:
-            kw["streaming_callback"] = chunks.append
-        if case["header_cb"]:
-            kw["header_callback"] = hlines.append
-        if not case["timeouts"]:
-            kw["connect_timeout"] = 0
-            kw["request_timeout"] = 0
-        req = HTTPRequest("http://h.test/p?q=1", **kw)
-        fut = client.fetch(req, raise_error=False)
-        dc = ch.DoneCounter(fut)
-        await ch.settle(fake)
-        if len(fake.calls) != 1 or fake.calls[0].stream is None:
-            state["no_connect"] = True
-            client.close()
-            return
-        s = fake.calls[0].stream
-        state["request"] = bytes(s.wire)
-        data = b.delivered
-        s.feed(data, segments_for(len(data), case["seg"], one_segment))
-        end = case["end"]
-        if end == "eof":
-            s.feed_eof()
-        elif end == "rst":
-            s.feed_reset()
-        await ch.settle(fake)
-        if end == "eof_later":
-            s.feed_eof()
+        for idx, (case, b) in enumerate(members):
+            state = states[idx]
+            chunks, hlines = state["chunks"], state["hlines"]
+            log0 = len(logs.records)
+            kw = dict(method=b.method, follow_redirects=False, decompress_response=case["decompress"])
+            if b.method == "POST":
+                kw["body"] = b"x=1"
+            if case["streaming"]:
+                kw["streaming_callback"] = chunks.append
+            if case["header_cb"]:
+                kw["header_callback"] = hlines.append
+            if not case["timeouts"]:
+                kw["connect_timeout"] = 0
+                kw["request_timeout"] = 0
+            req = HTTPRequest("http://h.test/p?q=1", **kw)
+            n0 = len(fake.calls)
+            fut = client.fetch(req, raise_error=False)
+            dc = ch.DoneCounter(fut)
             await ch.settle(fake)
-        state["done_at_quiescence"] = fut.done()
-        state["chunks_at_done"] = len(chunks) if fut.done() else None
-        if not fut.done() and case["timeouts"]:
-            await ch.advance(fake, 25.0)
-            state["late"] = True
-        state["outcome"] = ch.outcome(fut)
-        state["done_count"] = dc.count
-        state["segments"] = s.read_calls
-        state["stream_closed"] = s.closed()
-        # orderly teardown: nothing may outlive the case
-        if not s.closed():
-            s.feed_eof()
+            if len(fake.calls) != n0 + 1 or fake.calls[n0].stream is None:
+                state["no_connect"] = True
+                break
+            s = fake.calls[n0].stream
+            state["request"] = bytes(s.wire)
+            data = b.delivered
+            s.feed(data, segments_for(len(data), case["seg"], one_segment))
+            end = case["end"]
+            if end == "eof":
+                s.feed_eof()
+            elif end == "rst":
+                s.feed_reset()
             await ch.settle(fake)
-            if not s.closed():
-                s.close()
+            if end == "eof_later":
+                s.feed_eof()
                 await ch.settle(fake)
-        state["outcome_after_teardown"] = ch.outcome(fut)
-        state["done_count_final"] = dc.count
+            state["done_at_quiescence"] = fut.done()
+            if not fut.done() and case["timeouts"]:
+                await ch.advance(fake, 25.0)
+                state["late"] = True
+            state["outcome"] = ch.outcome(fut)
+            state["done_count"] = dc.count
+            state["segments"] = s.read_calls
+            state["stream_closed"] = s.closed()
+            # orderly teardown of this connection: nothing may outlive the case (or leak into the next fetch)
+            if not s.closed():
+                s.feed_eof()
+                await ch.settle(fake)
+                if not s.closed():
+                    s.close()
+                    await ch.settle(fake)
+            state["outcome_after_teardown"] = ch.outcome(fut)
+            state["done_count_final"] = dc.count
+            state["log_errors"] = [r for r in logs.records[log0:]
+                                   if r[0] in ("tornado.application", "tornado.general", "asyncio") and r[1] >= 40]
         client.close()
 
     with LogCapture() as logs:
-        vtime.run(scenario)
-    state["logs"] = logs
-    state["chunks"] = chunks
-    state["hlines"] = hlines
-    return state
+        vtime.run(scenario, logs)
+    return states
 
 
 def multimap(pairs):
@@ -876,7 +903,7 @@ def evaluate(ctx, case, b, st_, tag):
         if st_.get("late"):
             ctx.fail("C08.accept_only_after_timeout", dict(base))
         compare_response("C08.accept", b.exp_body)
-        errs = st_["logs"].errors()
+        errs = st_["log_errors"]
         if errs:
             ctx.fail("C08.error_logged_on_valid_response", dict(base, logs=errs[:3]))
     elif kind == "reject":
@@ -929,33 +956,54 @@ DETERMINISTIC_EITHER = {"bare_lf", "bare_lf_one", "obs_fold", "leading_crlf", "c
                         "framing_mut_on_bodiless", "wire_over_max", "header_over_limit"}
 
 
-def run_case(ctx, case):
+def members_of(case):
+    """The fetches of a case: the case itself plus the optional `history` of further fetches through the same client."""
     b = build(case)
-    cross_check(b, case)
-    st1 = run_client(case, b, one_segment=False)
-    if st1.get("no_connect"):
+    out = [(case, b)]
+    for extra in case.get("history") or []:
+        m = dict(extra)
+        m["client_limits"] = (b.max_body_size, b.max_header_size)
+        out.append((m, build(m)))
+    return out
+
+
+def run_case(ctx, case):
+    members = members_of(case)
+    for m, b in members:
+        cross_check(b, m)
+    sts1 = run_members(members, one_segment=False)
+    if any(st.get("no_connect") for st in sts1):
         raise AssertionError("client did not connect")
-    s1 = evaluate(ctx, case, b, st1, "segmented")
-    st2 = run_client(case, b, one_segment=True)
-    s2 = evaluate(ctx, case, b, st2, "one_segment")
+    sts2 = run_members(members, one_segment=True)
+    labels = set()
+    nontrivial = False
+    for idx, (m, b) in enumerate(members):
+        tag = "" if len(members) == 1 else "fetch#%d of %d through one client, " % (idx + 1, len(members))
+        lab, nt = judge_member(ctx, m, b, sts1[idx], sts2[idx], tag)
+        labels |= lab
+        nontrivial = nontrivial or nt
+    if len(members) > 1:
+        labels.add("history_%d_fetches_one_client" % len(members))
+        if len({m["decompress"] for m, _ in members}) > 1:
+            labels.add("history_decompress_differs")
+        if len({(m["streaming"], m["header_cb"], m["timeouts"], b.method) for m, b in members}) > 1:
+            labels.add("history_request_options_differ")
+    ctx.note(case, labels, nontrivial)
+
+
+def judge_member(ctx, case, b, st1, st2, tag):
+    s1 = evaluate(ctx, case, b, st1, tag + "segmented")
+    s2 = evaluate(ctx, case, b, st2, tag + "one_segment")
     kind, why = b.verdict
     if kind != "either" or why in DETERMINISTIC_EITHER:
         a, c = s1, s2
         if a[0] == "error" and c[0] == "error":
             pass  # the error type may depend on where the bytes stopped
         elif a != c:
-            sig = None
-            if b.interim and any(x[0] == "response" and x[1] in (100, 102, 103) for x in (a, c)):
-                sig = "C08.after_interim_fallthrough"  # the 1xx itself was returned (open finding), with leftover bytes as body
             ctx.fail("C08.segmentation_dependent", {"class": kind, "why": why, "segmented": a, "one_segment": c,
-                                                    "stream": b.delivered[:600]}, sig=sig)
+                                                    "stream": b.delivered[:600], "run": tag})
         if case["streaming"] and b"".join(st1["chunks"]) != b"".join(st2["chunks"]) and a[0] == "response":
-            sig = None
-            if b.interim and (a[1] in (100, 102, 103) or b.method != "HEAD"):
-                # open finding: after an interim response leftover bytes reach streaming_callback; how many depends
-                # on what happened to be buffered, i.e. on the segmentation
-                sig = "C08.after_interim_fallthrough"
-            ctx.fail("C08.segmentation_dependent_chunks", {"class": kind, "why": why, "segmented": a, "one_segment": c}, sig=sig)
+            ctx.fail("C08.segmentation_dependent_chunks", {"class": kind, "why": why, "segmented": a, "one_segment": c, "run": tag})
     labels = set(b.labels)
     if st1["outcome"][0] == "error":
         labels.add("outcome_error")
@@ -973,7 +1021,7 @@ def run_case(ctx, case):
     if multi_seg:
         labels.add("multi_segment")
     nontrivial = multi_seg and bool(b.interim or "chunked" in labels or "gzip" in labels or case["mut"] or b.cut is not None)
-    ctx.note(case, labels, nontrivial)
+    return labels, nontrivial
 
 
 def _base(**kw):
@@ -1004,6 +1052,23 @@ def grid_cases():
                     for streaming in [False, True]:
                         yield _base(enc=enc, framing=framing, decompress=decompress, mbs=mbs, streaming=streaming,
                                     payload=b"abcdefgh" * 150, chunks=[100, 333])
+    # histories: 2-3 fetches through one client whose per-request options differ (each judged on its own)
+    for enc in ["gzip", None]:
+        for d1 in (True, False):
+            for d2 in (True, False):
+                for s1 in (False, True):
+                    for s2 in (False, True):
+                        yield _base(enc=enc, decompress=d1, streaming=s1, header_cb=s2,
+                                    history=[_base(enc=enc, decompress=d2, streaming=s2, header_cb=s1, framing="chunked",
+                                                   timeouts=not s1)])
+    for order in [(True, False, True), (False, True, False), (False, False, True)]:
+        yield _base(enc="gzip", decompress=order[0], mbs=("B", 0),
+                    history=[_base(enc="gzip", decompress=d, method=mth, framing=fr)
+                             for d, mth, fr in zip(order[1:], ("POST", "GET"), ("close", "chunked"))])
+    for first in [_base(mut="status_no_sp"), _base(enc="crc"), _base(end="open", framing="close", timeouts=False),
+                  _base(cut=500, framing="chunked"), _base(mut="cl_conflict", end="rst")]:
+        # the client is used again after every way a fetch can end (malformed, corrupt, left open, truncated, reset)
+        yield dict(first, history=[_base(enc="gzip", decompress=True, streaming=True), _base(enc="gzip", decompress=False)])
     # max_body_size=0 with empty, 1-byte and small bodies, every framing and body-less status, with/without interim
     for payload in [b"", b"x", b"hello world"]:
         for framing in ["cl", "chunked", "close"]:
